@@ -54,7 +54,7 @@ def host_is_ip(host):
 
 def run(ctx):
     facts = ctx.facts() or {}
-    thms = ctx.build_and_audit(["NutsProofs.Props.C20"])
+    thms = ctx.build_and_audit(["NutsProofs.Props.C20", "NutsProofs.Props.C20R3"])
     required = ["strict_refuses", "strict_refuses_with_reason", "strict_decision_table", "strict_running", "lenient_accepts", "moved_keys_refused",
                 "cli_secrets_refused", "outbound_https_only", "lenient_follows_http", "tls_off_network_disabled", "refusals_independent",
                 "fact_default_strict", "fact_parse_public_url", "fact_reserved_lists", "fact_moved_keys", "fact_secret_flag_rule",
@@ -62,7 +62,11 @@ def run(ctx):
                 "fact_response_cap", "response_cap_exact", "response_never_truncated", "reader_limit_witness", "do_bytes_refines", "do_body_bounded", "outbound_https_only_bytes",
                 "fact_config_sources", "fact_load_steps", "source_precedence", "strict_only_off_when_told", "command_line_strict_wins", "sources_to_decision",
                 "env_key_normal", "env_list_plain", "load_check_order", "load_full_refines_load",
-                "fact_crypto_backends_tls_enabled", "crypto_backend_exact", "start_files_refines", "tls_never_half"]
+                "fact_crypto_backends_tls_enabled", "crypto_backend_exact", "start_files_refines", "tls_never_half",
+                "fact_secret_suffixes", "fact_load_from_flagset_shape", "fact_client_loader", "fact_sql_init", "secret_rule_regenerated", "flagset_refused_iff",
+                "flagset_reports_a_set_secret", "load_refines_flagset", "client_token_cli_refused", "client_token_never_from_cli",
+                "implicit_sql_refused_any_datadir", "strict_sql_opened_is_configured", "init_sql_outcomes", "lenient_default_sqlite", "start_conn_refines",
+                "strict_conn_refuses_implicit"]
     for r in required:
         if not any(t.endswith("Props." + r) for t in thms):
             ctx.oblige("thm-present:" + r, False, "theorem missing or its module does not build")
@@ -75,6 +79,9 @@ def run(ctx):
         "deepening round: http/client limitedReadAll + body pipeline of Do (byte level); core/config.go loadFromEnv / splitWithEscaping / loadFromFlagSet and loadConfigMap order; "
         "Load check order; crypto.Configure switch by name; TLSConfig.Enabled / Load over the three tls.* files (vcr, network, GoldenHammer). Contracts tied by correspondence: "
         "koanf/mapstructure conversion of a loaded value (ParseBool table, string -> one-element slice), YAML / pflag parsing, validity of the PEM files (only valid files are generated)",
+        "round 3: core/config.go loadFromFlagSet over any flag set + core/client_config.go NewClientConfigForCommand (secret suffixes regenerated from the source expression); "
+        "storage/engine.go initSQLDatabase up to the adapter switch (adapter names, default SQLite prefix, statement shape regenerated). Contracts: pflag VisitAll order = sorted names "
+        "(the harness passes the real order), goose/gorm/sql drivers behind the adapter switch (only sqlite and unknown adapters are run)",
     ]
     ctx.assumptions += [
         "'network TLS switched off' is an insecure setting only when the network engine is enabled (didmethods contains nuts): theorem tls_off_network_disabled shows the other reading's configuration",
@@ -109,6 +116,7 @@ def run(ctx):
     best, viol = {}, 0
     feats_default = [0, 0]
     feats_src = [0, 0]
+    feats_sql, feats_cflag = [], []
     tags, outcomes = Counter(), Counter()
     distinct = set()
     product_rows = set()
@@ -210,6 +218,21 @@ def run(ctx):
             outcomes["sys " + ("strict " if strict else "lenient ") + (line.split()[1] if line.startswith("sys refuse") else "ok")] += 1
             half_tls = op.get("tlsparts") not in (None, "", "t", "ckt")   # certificate without key etc.: cannot be loaded, either mode
             malformed = op.get("crypto", "") not in ("", "fs") or op.get("url", "") == "" or half_tls
+            conn = op.get("sqlconn")
+            if conn is not None:
+                # round 3: the connection string itself; a data directory with a history (prior lenient run) changes nothing
+                feats_sql.append((strict, op.get("prior", ""), conn.split(":")[0]))
+                if conn and not conn.startswith("sqlite:"):
+                    malformed = True
+                    if line.startswith("sys ok"):
+                        violation("sql-unknown-adapter-started:" + conn.split(":")[0], f"storage.sql.connection={conn!r} names no supported database but the node started", opl)
+                if line.startswith("sys prior-"):
+                    violation("prior-run:" + line.split()[1][:40], f"the lenient run that gives the data directory its history did not work: {line}", opl)
+                    continue
+                if strict and not conn and op.get("prior") and not line.startswith("sys refuse"):
+                    violation("strict-accepted:sql-implicit:used-datadir", "strict node without storage.sql.connection started on a data directory that an earlier "
+                              "non-strict run left its sqlite.db in (implicit SQLite must be refused whatever the data directory holds)", opl)
+                    continue
             if op.get("tlsparts") is not None:
                 feats_src.append(op["tlsparts"])
             if half_tls and line.startswith("sys ok"):
@@ -306,6 +329,22 @@ def run(ctx):
                     violation("strict-accepted:url-not-https:via-sources", f"strict mode resolved ON from file={fv} env={env} cli={cli!r} but the node started with a plain-http public URL", opl)
                 if not strict_res and m.group(2) != "ok":
                     violation("lenient-refused:via-sources", f"strict mode resolved OFF but the node refused: {line}", opl)
+        elif kind == "cflag":
+            # CLI client commands: no option ending in token/password may come from the command line; without one the
+            # command must load, and its token is the environment's
+            names = [a.split("=", 1)[0] for a in op.get("args", [])]
+            secret = [n for n in names if n.endswith("token") or n.endswith("password")]
+            outcomes["cflag " + line.split()[1].split(":")[0] + (":cli-secret" if "cli-secret" in line else "") + (" (secret set)" if secret else "")] += 1
+            distinct.add(("cflag", tuple(op.get("names", [])), tuple(op.get("args", [])), op.get("envtoken")))
+            feats_cflag.append(tuple(names))
+            if secret and not line.startswith("cflag refuse:cli-secret:"):
+                violation("cli-secret-accepted:client:" + secret[0], f"CLI client command accepted the secret flag(s) {secret} on the command line (flag set {op.get('names')}): {line}", opl)
+            elif secret and bytes.fromhex(line.rsplit(":", 1)[1]).decode("latin1") not in secret:
+                violation("cli-secret-misreported", f"refusal names a flag that is not a secret set on the command line: {line} (set: {names})", opl)
+            elif not secret and not line.startswith("cflag ok token="):
+                violation("cli-flags-refused:client", f"CLI client command with flags {names} (no secret among them): {line}", opl)
+            elif not secret and bytes.fromhex(line.split("token=", 1)[1]).decode("latin1") != (op.get("envtoken") or ""):
+                violation("client-token-not-from-environment", f"no token on the command line, NUTS_TOKEN={op.get('envtoken')!r}, but the client's token is {line.split('token=', 1)[1]!r} (hex)", opl)
         elif kind == "cap":
             # the documented 1 MiB response cap, judged on what the caller of the REAL Do got to read
             n, cap = op.get("body", 0), 1024 * 1024
@@ -342,6 +381,10 @@ def run(ctx):
         capn = feats_default[2:]
         ctx.oblige("response-cap-rows-run", any(n == 1024 * 1024 for n in capn) and any(n == 1024 * 1024 + 1 for n in capn) and len(capn) >= 30,
                    f"{len(capn)} response-cap cases (sizes incl. exactly 1 MiB and 1 MiB + 1)")
+        ctx.oblige("sql-connection-rows-run", len(set(feats_sql)) >= 20 and (True, "lenient", "") in feats_sql,
+                   f"{len(feats_sql)} connection-string rows, {len(set(feats_sql))} distinct (mode, data-directory history, adapter) incl. strict + used data directory + no string")
+        ctx.oblige("client-flag-rows-run", len(feats_cflag) >= 50 and ("token",) in feats_cflag and any("token" in f and len(f) > 1 for f in feats_cflag),
+                   f"{len(feats_cflag)} CLI-client flag sets incl. --token alone and combined")
         ctx.oblige("default-strict-rows-run", feats_default[0] >= 8, f"{feats_default[0]} configurations without a strictmode key")
         ctx.oblige("exhaustive:option-product", len(product_rows) == PRODUCT_SIZE, f"{len(product_rows)} of {PRODUCT_SIZE} rows of the option product were run")
 
@@ -368,6 +411,9 @@ def run(ctx):
                        "Deepening round: response-cap cases (body sizes around 1 MiB, Content-Length / chunked, behind redirects) through the three constructors; "
                        "strictmode / url / didmethods through the real loader from file x environment (name spellings x raw values) x command line, part continued into Configure; "
                        "all 8 subsets of the tls.* file options x mode x didmethods; spellings of the crypto back-end name. "
+                       "Round 3: storage.sql.connection strings (unset, two sqlite files, 4 unknown adapters) x mode x data-directory history (fresh / used by an earlier lenient "
+                       "run that left sqlite.db) through the assembled node; core.NewClientConfigForCommand on a real cobra command: every client flag alone, --token combined, "
+                       "a command's own flags ending in token/password, NUTS_TOKEN, random flag sets. "
                        "distinct_nontrivial = distinct accepted URLs + flags + option rows + outbound scenarios + source combinations + cap cases")
     ctx.cov["input_distribution"] = {"by_family": dict(tags), "outcomes": dict(outcomes.most_common(60)),
                                      "secret_looking_flags_accepted_on_cli(stated limit)": sorted(set(odd_accepted))}
